@@ -127,10 +127,11 @@ private theorem coerceCore_sound {reg : Reg} (hreg : RegOK reg) {rec : Ty → JV
           · rename_i r hr
             split at h
             · cases h
-              refine ⟨.input hk ?_, fun _ => rfl⟩
-              exact fieldLoop_sound
+              have hcf : ConformsFields reg fs r := fieldLoop_sound
                 (fun f hf v pv _ hpv => hrec f.type v pv (hreg.fieldWf n fs hk f hf) hpv)
                 (fun f hf d hd => hreg.defaultsConform n fs hk f hf d hd) ((fieldLoopC_ok_iff _ _ _ _).1 hr)
+              rw [dictOfAssignments_conforms (hreg.pyNamesDistinct n fs hk) hcf]
+              exact ⟨.input hk hcf, fun _ => rfl⟩
             · cases h
         · cases h
       · cases h
@@ -287,7 +288,6 @@ private theorem vfaCore_sound {reg : Reg} (hreg : RegOK reg) {vars : Option (Lis
           · rename_i r hr
             split at h
             · cases h
-              refine ⟨.input hk ?_, fun _ => rfl⟩
               have hfields : ∀ f, f ∈ fs → ∀ l, lookupLast f.name lkvs = some l → (vars = none ∨ VarsFit reg vars f.type l) := by
                 cases hfit with
                 | inl h0 => exact fun _ _ _ _ => .inl h0
@@ -296,9 +296,11 @@ private theorem vfaCore_sound {reg : Reg} (hreg : RegOK reg) {vars : Option (Lis
                   | leaf hlf => simp [Lit.isLeaf] at hlf
                   | listSingle hs _ => rw [hst] at hs; cases hs
                   | obj hs hk' hf => rw [hst] at hs; cases hs; rw [hk] at hk'; cases hk'; exact fun f hf' l hl' => .inr (hf f hf' l hl')
-              exact fieldLoop_sound
+              have hcf : ConformsFields reg fs r := fieldLoop_sound
                 (fun f hf v pv hget hpv => hrec f.type v pv (hreg.fieldWf n fs hk f hf) (hfields f hf v hget) hpv)
                 (fun f hf d hd => hreg.defaultsConform n fs hk f hf d hd) hr
+              rw [dictOfAssignments_conforms (hreg.pyNamesDistinct n fs hk) hcf]
+              exact ⟨.input hk hcf, fun _ => rfl⟩
             · cases h
         · cases h
       · rename_i vs hk
